@@ -61,6 +61,7 @@ class Opts:
         self.assign = True          # assignments / += allowed (C20 wants assignment-free programs)
         self.prints = True
         self.loops = True
+        self.while_loops = True
         self.early_exit = True      # break / continue / return
         self.shadow = 0.5           # probability of reusing a visible name for a new let
         self.annotate_lets = 0.3
@@ -135,6 +136,8 @@ class Gen:
 
     def pick_name(self):
         r = self.rng
+        if self.o.toplevel_pure and len(self.scopes) == 1 and self.cur_fun is None and not self.in_closure:
+            return self.fresh_name("t")
         vis = [v.name for v in self.visible() if not v.name.startswith("i_")]
         if vis and r.random() < self.o.shadow:
             return r.choice(vis)
@@ -569,7 +572,7 @@ class Gen:
         if not simple and depth >= 1:
             choices += ["if", "if", "match"]
             if o.loops:
-                choices += ["while", "for"]
+                choices += ["while", "for"] if o.while_loops else ["for", "for"]
             if o.early_exit and self.in_loop:
                 choices += ["ifbreak", "ifbreak", "ifcontinue"]
             if o.early_exit and self.fun_ret is not None:
